@@ -101,7 +101,7 @@ func (x *Exec) eval(fr *frame, in ssa.Value) Val {
 		n := x.subst(x.get(fr, in.Len).(Int))
 		c := x.subst(x.get(fr, in.Cap).(Int))
 		if !n.conc() || !c.conc() {
-			panic(unsupported{"symbolic make length at " + x.curPos})
+			panic(unsupported{"symbolic make length at " + x.where()})
 		}
 		if n.sval() < 0 || c.sval() < n.sval() || c.sval() > 1<<20 {
 			x.fail("makeslice-range", "")
@@ -122,7 +122,7 @@ func (x *Exec) eval(fr *frame, in ssa.Value) Val {
 	case *ssa.Next:
 		it := x.get(fr, in.Iter).(*MapIter)
 		if in.IsString {
-			panic(unsupported{"range over string at " + x.curPos})
+			panic(unsupported{"range over string at " + x.where()})
 		}
 		mt := in.Iter.(*ssa.Range).X.Type().Underlying().(*types.Map)
 		if it.i >= len(it.keys) {
@@ -133,7 +133,7 @@ func (x *Exec) eval(fr *frame, in ssa.Value) Val {
 	case *ssa.SliceToArrayPointer:
 		panic(unsupported{"slice to array pointer"})
 	}
-	panic(unsupported{fmt.Sprintf("eval %T %s at %s", in, in, x.curPos)})
+	panic(unsupported{fmt.Sprintf("eval %T %s at %s", in, in, x.where())})
 }
 
 // rangeStart: iteration over a map. Maps that belong to a symbolic document
@@ -246,7 +246,7 @@ func (x *Exec) sliceOp(fr *frame, in *ssa.Slice) Val {
 		}
 		i := x.subst(x.get(fr, v).(Int))
 		if !i.conc() {
-			panic(unsupported{"symbolic slice bound at " + x.curPos})
+			panic(unsupported{"symbolic slice bound at " + x.where()})
 		}
 		return int(i.sval())
 	}
@@ -387,7 +387,7 @@ func (x *Exec) convert(v Val, from, to types.Type) Val {
 	if _, ok := tu.(*types.Pointer); ok {
 		return v
 	}
-	panic(unsupported{fmt.Sprintf("convert %s -> %s at %s", from, to, x.curPos)})
+	panic(unsupported{fmt.Sprintf("convert %s -> %s at %s", from, to, x.where())})
 }
 
 // stringToRunes decodes with the interpreted unicode/utf8.DecodeRuneInString
